@@ -277,6 +277,10 @@ M = [
     ('fuzzy-suffix-polarity', 'C14', 'pysmi/reader/base.py', "            if part != -1:\n", "            if part == -1:\n"),
     ('fuzzy-off-by-default', 'C14', 'pysmi/reader/base.py', "    fuzzyMatching = True", "    fuzzyMatching = False"),
     ('upper-case-extensions-dropped', 'C14', 'pysmi/reader/base.py', "    exts.extend([x.upper() for x in exts if x])\n", ""),
+    ('typedecl-skipped-when-imported-elsewhere', 'C03', S, "            parentType, attrs = declaration\n            if parentType:  # skipping SEQUENCE case", "            parentType, attrs = declaration\n            if pysmiName in self._seenSyms:\n                return\n            if parentType:  # skipping SEQUENCE case"),
+    ('notification-group-without-notifications', 'C11', P, "NotificationsPart : NOTIFICATIONS '{' Notifications '}'", "NotificationsPart : NOTIFICATIONS '{' Notifications '}'\n                             | empty"),
+    ('failed-map-kept-on-the-compiler', 'C12', C, "        failedMibs = {}\n        borrowedMibs = {}", "        failedMibs = self._sources_failed = getattr(self, '_sources_failed', {})\n        borrowedMibs = {}"),
+    ('quoted-string-single-line', 'C02', L, "        r'\\\"[^\\\"]*\\\"'\n", "        r'\\\"[^\\\"\\n]*\\\"'\n"),
     ('compliance-module-unguarded-subscript', 'C11', P, "        objects = p[3] and p[3][1] or []\n", "        objects = p[3][1]\n"),
 ]
 
